@@ -1,0 +1,72 @@
+//go:build verif
+
+package actor
+
+// Contracts for property C33, de-duplication kernel: a relocation of a departed
+// node is dispatched to the relocator at most once while one is in flight.
+
+//@ property C33
+//@ load github.com/tochemey/goakt/v4/internal/internalpb
+
+// the registry of in-flight relocations (a monitor under relocationJobsLocker)
+//@ structural mapwriters actorSystem.relocationJobs: NewActorSystem, (*actorSystem).beginRelocation, (*actorSystem).endRelocation, (*actorSystem).shutdownCluster
+
+//@ func (*actorSystem).beginRelocation(x, peerAddress, peerState)
+//@   requires x.relocationJobs != nil
+//@   ensures first-departure-registers: !old(has(x.relocationJobs, peerAddress)) ==> result && has(x.relocationJobs, peerAddress) && x.relocationJobs[peerAddress] == peerState
+//@   ensures duplicate-is-refused: old(has(x.relocationJobs, peerAddress)) ==> !result && has(x.relocationJobs, peerAddress) && x.relocationJobs[peerAddress] == old(x.relocationJobs[peerAddress])
+//@   ensures others-untouched: forall a string :: a != peerAddress ==> has(x.relocationJobs, a) == old(has(x.relocationJobs, a)) && x.relocationJobs[a] == old(x.relocationJobs[a])
+//@   modifies map(string,*internalpb.PeerState)
+
+//@ func (*actorSystem).endRelocation(x, peerAddress)
+//@   requires x.relocationJobs != nil
+//@   ensures released: !has(x.relocationJobs, peerAddress)
+//@   ensures others-untouched: forall a string :: a != peerAddress ==> has(x.relocationJobs, a) == old(has(x.relocationJobs, a)) && x.relocationJobs[a] == old(x.relocationJobs[a])
+//@   modifies map(string,*internalpb.PeerState)
+
+//@ func (*actorSystem).relocationJob(x, peerAddress)
+//@   requires x.relocationJobs != nil
+//@   ensures reads-the-registry: result1 == has(x.relocationJobs, peerAddress) && (result1 ==> result0 == x.relocationJobs[peerAddress])
+//@   modifies nothing
+
+// the two dispatch sites tell the relocator only after a successful registration,
+// with exactly the registered snapshot, and release the job if the tell fails
+//@ ghost local began bool
+//@ func (*actorSystem).dispatchDerivedRebalance(x, ctx, peerAddress, peerState)
+//@   requires x.relocationJobs != nil
+//@   preserve actorSystem.relocationJobs, actorSystem.relocator
+//@   ghost entry began = false
+//@   at call 1 of (*actorSystem).beginRelocation assert registers-this-departure: arg1 == peerAddress && arg2 == peerState
+//@   at call 1 of (*actorSystem).beginRelocation ghost began = result
+//@   at call 1 of (*PID).Tell assert dispatches-only-a-registered-job: began && arg2 == x.relocator && has(x.relocationJobs, peerAddress) && x.relocationJobs[peerAddress] == peerState
+//@   at call 1 of (*actorSystem).endRelocation assert releases-only-its-own-job: began && arg1 == peerAddress
+//@   ensures a-duplicate-changes-nothing: old(has(x.relocationJobs, peerAddress)) ==> has(x.relocationJobs, peerAddress) && x.relocationJobs[peerAddress] == old(x.relocationJobs[peerAddress])
+//@ structural writers actorSystem.relocator: (*actorSystem).spawnRelocator, (*actorSystem).reset
+
+// Rebalance orders are created only at the two gated dispatch sites and when the
+// relocator hands the job to its worker
+//@ structural callers (*actorSystem).beginRelocation: (*actorSystem).handleNodeLeftEvent, (*actorSystem).dispatchDerivedRebalance
+
+//@ ghost local began_nl bool
+//@ func (*actorSystem).handleNodeLeftEvent(x, event)
+//@   ghost entry began_nl = false
+//@   at call 1 of (*actorSystem).beginRelocation ghost began_nl = result
+//@   at call 1 of (*actorSystem).publishRelocationStarted assert announces-only-a-registered-job: began_nl
+//@   at call 1 of (*PID).Tell assert dispatches-only-a-registered-job: began_nl && arg2 == x.relocator
+//@   at call 1 of (*actorSystem).endRelocation assert releases-only-its-own-job: began_nl
+
+// relocator: a dead worker aborts (and reports) the relocation only when the job
+// still registered for that address is the very snapshot the worker owned; an
+// aborted relocation is reported once and its job released
+//@ ghost local term_reg *internalpb.PeerState
+//@ ghost local term_ok bool
+//@ func (*relocator).handleTerminated(r, ctx, msg)
+//@   requires r.workers != nil && r.pid != nil
+//@   preserve relocator.workers, relocator.pid
+//@   ghost entry term_ok = false
+//@   at call 1 of invoke relocationJob ghost term_reg = result0
+//@   at call 1 of invoke relocationJob ghost term_ok = result1
+//@   at call 1 of (*relocator).abortRelocation assert aborts-only-its-own-unfinished-job: term_ok && term_reg == job.peerState && arg2 == job.address && arg3 == term_reg && old(has(r.workers, name))
+//@ structural mapwriters relocator.workers: newRelocator, (*relocator).startWorker, (*relocator).handleTerminated
+//@ structural writers relocator.pid: (*relocator).Receive
+//@ structural mustcall (*relocator).abortRelocation: invoke reportAbortedRelocation, invoke endRelocation
